@@ -447,6 +447,11 @@ func (w *streamingResponseWriter) WriteHeader(status int) {
 	if w.wroteHeader {
 		return
 	}
+	if status >= 100 && status < 200 && status != http.StatusSwitchingProtocols {
+		// Informational (1xx) responses are interim: the final status and
+		// headers are still to come, so they must not start the response.
+		return
+	}
 	w.wroteHeader = true
 
 	// Initialize the response trailers.
